@@ -25,6 +25,13 @@ def run(ctx):
                'AlgebraModel: spelling parity (SpellingRefinement), canonical order, every enumerated configuration')
     if not r['ok']:
         ctx.report(f"AlgebraModel violates {r['violated']}", {'kind': 'spec', 'violated': ','.join(r['violated'])}, {'tail': r['out'][-2000:]})
+    r = ctx.mc('mc/MC_Construct.tla', 'mc/MC_Construct_fixed.cfg', 'ConstructModel: the transcribed MultiVector.__new__ meets the construction contract for every input of the bounded space (incl. inconsistent inputs raising)')
+    if not r['ok']:
+        ctx.report(f"ConstructModel violates {r['violated']}", {'kind': 'spec', 'violated': ','.join(r['violated'])}, {'tail': r['out'][-2000:]})
+    rc = ctx.mc('mc/MC_Construct.tla', 'mc/MC_Construct_old.cfg', 'control: re-keying only odd permutations of keyword blades (pinned code) must be refuted')
+    if not rc['violated']:
+        from tlc import MachineryError
+        raise MachineryError('control run of ConstructModel did not find the known counterexample')
     us = [ucfg(sig=[]), ucfg(sig=[1]), ucfg(sig=[1, 1]), ucfg(sig=[0, 1], start=0), ucfg(sig=[1, 1, 1]), ucfg(2, 0, 1), ucfg(sig=[1, 1, -1], start=2),
           named_ucfg('2DPGA'), named_ucfg('3DPGA'), ucfg(sig=[1, 1, 1, 1]), ucfg(3, 0, 1)]
     for st in (0, 1):
